@@ -591,7 +591,8 @@ func (app *App) isEtagStale(etag string, noneMatchBytes []byte) bool {
 }
 
 func parseAddr(raw string) (string, string) { //nolint:revive // Returns (host, port)
-	if i := strings.LastIndex(raw, ":"); i != -1 {
+	// the last colon separates the port, unless it lies inside the brackets of an IPv6 literal ("[2001:db8::1]")
+	if i := strings.LastIndex(raw, ":"); i != -1 && strings.IndexByte(raw[i:], ']') == -1 {
 		return raw[:i], raw[i+1:]
 	}
 	return raw, ""
